@@ -1023,4 +1023,72 @@ def envCfg : DecCfg := { host := some envHost }
 /-- `decodeEnv`: decoding a persisted function environment -/
 def decodeEnv (bs : Bytes) : Outcome := decode envCfg bs
 
+/-! ## Several values through one Encoder / one Decoder
+
+`Encoder.memo` (and its id counter) and `Decoder.memo`, `Decoder.stack` are fields that no `Encode` / `Decode` call
+resets: a container memoised while writing one value is written as a BINGET when a later value of the same stream
+contains it, and the Decoder resolves that id in the memo it has kept — so sharing ACROSS the values of a stream is
+preserved, and an Encoder must be read back by a Decoder that has seen the same prefix. -/
+
+structure MGraph where
+  heap : Heap
+  roots : List Val
+deriving DecidableEq, Repr
+
+/-- `for _, v := range vs { enc.Encode(v) }` on one Encoder: the encoder state is carried over -/
+def encStream (cfg : EncCfg) (g : Heap) (fuel : Nat) : EncSt → List Val → Option (EncSt × List Op)
+  | st, [] => some (st, [])
+  | st, v :: vs =>
+    match encVal cfg g fuel st v with
+    | Option.none => Option.none
+    | some (st1, ops1) =>
+      match encStream cfg g fuel st1 vs with
+      | Option.none => Option.none
+      | some (st2, ops2) => some (st2, ops1 ++ [Op.stop] ++ ops2)
+
+def encodeStream (cfg : EncCfg) (g : MGraph) : Option Bytes :=
+  match encStream cfg g.heap (g.heap.length + 1) ⟨[], 0⟩ g.roots with
+  | some (st, ops) => if st.next = g.heap.length then some (serAll ops) else Option.none
+  | Option.none => Option.none
+
+/-- one `Decode` call that also hands back the decoder's state and the unread input -/
+inductive NextRaw where
+  | value (v : Val) (ds : DecSt) (rest : Bytes)
+  | failure (k : ErrKind)
+  | rtPanic
+  | otherPanic
+  | outOfFuel
+
+def decodeNext (cfg : DecCfg) : Nat → DecSt → Bytes → NextRaw
+  | 0, _, _ => .outOfFuel
+  | fuel + 1, ds, bs =>
+    match parseOp bs with
+    | .eof => .failure .eof
+    | .bad _ => .failure .badOpcode
+    | .op o rest =>
+      match stepOp cfg ds o with
+      | .cont ds' => decodeNext cfg fuel ds' rest
+      | .done v ds' => .value v ds' rest
+      | .fail k => .failure k
+      | .rtPanic => .rtPanic
+      | .otherPanic => .otherPanic
+
+inductive StreamOutcome where
+  | ok (vals : List Val) (heap : Heap)      -- every call returned a value
+  | err (call : Nat) (k : ErrKind)          -- the call with this index (from 0) returned an error
+  | nilNoErr (call : Nat)
+  | outOfFuel
+deriving DecidableEq, Repr
+
+/-- `n` calls of `Decode` on one Decoder reading `bs` -/
+def decodeStream (cfg : DecCfg) : Nat → DecSt → Bytes → List Val → StreamOutcome
+  | 0, ds, _, acc => .ok acc ds.heap
+  | n + 1, ds, bs, acc =>
+    match decodeNext cfg (bs.length + 1) ds bs with
+    | .value v ds' rest => decodeStream cfg n ds' rest (acc ++ [v])
+    | .failure k => .err acc.length k
+    | .rtPanic => if cfg.failureIsInterface then .err acc.length .runtimeError else .nilNoErr acc.length
+    | .otherPanic => .nilNoErr acc.length
+    | .outOfFuel => .outOfFuel
+
 end Dawn.Pickle
